@@ -14,6 +14,19 @@ def digest(text):
     return hashlib.sha1(text).hexdigest()[:16]
 
 
+def _opaque(v, depth=0):
+    """An object the model does not know.  Its default repr would contain a memory address, which says nothing
+    about the value: use the class name and its public attributes instead; a class with its own __repr__ is trusted."""
+    if type(v).__repr__ is not object.__repr__:
+        return type(v).__name__ + ":" + repr(v)
+    try:
+        attrs = vars(v)
+    except TypeError:
+        attrs = {k: getattr(v, k, None) for k in getattr(type(v), "__slots__", ())}
+    return {"class": type(v).__name__,
+            "attrs": sorted([str(k), _plain(x, depth + 1)] for k, x in attrs.items() if not str(k).startswith("_"))}
+
+
 def _enum(v):
     # Enum members -> their name; anything else -> repr
     name = getattr(v, "name", None)
@@ -59,7 +72,7 @@ def _plain(v, depth=0):
         return [_plain(x, depth + 1) for x in v]
     if hasattr(v, "origin") and hasattr(v, "extent"):
         return {"layout": _layout(v)}
-    return {"?": type(v).__name__ + ":" + repr(v)}
+    return {"?": _opaque(v, depth)}
 
 
 def _node(n):
@@ -83,7 +96,9 @@ def _num(v):
         if v == v and v not in (float("inf"), float("-inf")) and v.is_integer():
             return repr(int(v))
         return repr(v)
-    return repr(v)
+    if v is None or isinstance(v, (str, bytes)) or type(v).__repr__ is not object.__repr__:
+        return repr(v)
+    return json.dumps(_opaque(v), sort_keys=True)
 
 
 def _caption(c):
